@@ -163,6 +163,7 @@ def l1(rep, tier):
                       dict(na=2, w=1, smax=2, maxlen=4, maxu=3)]
     else:
         universes += [dict(na=3, w=1, smax=1, maxlen=2, maxu=1)]
+    universes += [dict(na=3, w=1, smax=1, maxlen=2, maxu=2)]       # uneven sizes incl. empty annotators: window "covers" via w*n >= total
     runs = []
     for u in universes:
         res = tlc.run("FastAlign", CFG.format(variant="none", emit="TRUE", **u), label=f"FastAlign {u}", workers=16,
@@ -232,6 +233,15 @@ def l3(rep, pa, probe, rng, count):
         kind, d = align.random_dissim(pa, rng, c)
         wmax = math.ceil(c.num_units / len(c.annotators)) + 1
         w = rng.randint(1, wmax)
+        if len(runs) % 3 == 0:
+            # the window covers the whole continuum exactly (w*n >= units), with an annotator that has no unit
+            if len(c.annotators) >= 3:
+                empty = list(c.annotators)[rng.randrange(len(c.annotators))]
+                for u in list(c[empty]):
+                    c.remove(empty, u)
+            if not c:
+                continue
+            w = math.ceil(c.num_units / len(c.annotators))
         before = json.dumps(align.continuum_summary(c))
         al, run = probe.run(c, d, w)
         meta = {"dissim": kind, "w": w, "continuum": align.continuum_summary(c), "delta_empty": float(d.delta_empty),
@@ -258,8 +268,12 @@ def gamma_jobs(rep, pa, probe, rng, count):
     """Fast-mode gamma runs: every job logs (best_window_size of its continuum, algorithm used)."""
     runs = []
     for _ in range(count):
-        n_ann, mu = rng.choice([(2, 12), (3, 6), (2, 30), (3, 12)])
-        c = align.random_continuum(pa, rng, n_ann, mu, unlabelled=0.0, grid=True, allow_empty=False)
+        n_ann, mu = rng.choice([(2, 12), (3, 6), (4, 20), (5, 12), (3, 50)])
+        if mu >= 12 and n_ann >= 3:
+            from .gammarun import big_continuum
+            c = big_continuum(pa, rng)
+        else:
+            c = align.random_continuum(pa, rng, n_ann, mu, unlabelled=0.0, grid=True, allow_empty=False)
         d = pa.CombinedCategoricalDissimilarity(alpha=rng.choice([1, 3]), beta=1)
         np.random.seed(rng.randint(0, 10 ** 6))
         probe.jobs = []
